@@ -1992,4 +1992,62 @@ theorem applyFn_simE (π : Oracle) (f : Fn) (hcov : Fn.coveredE f = true) {args 
   · obtain ⟨a', ha, rfl⟩ := concL_one h; exact values_simE π ha
   · exact SimG.err
 
+/-! ### `zip` -/
+
+theorem zipArgs_simE : ∀ {vs vs' : List Val}, ConcL vs vs' →
+    SimG (All₂ ConcL) (zipArgs vs) (zipArgs vs')
+  | [], vs', h => by simp only [ConcL] at h; subst h; exact SimG.ok .nil
+  | v :: rest, vs', h => by
+    simp only [ConcL] at h
+    obtain ⟨v', t1, hv, ht, rfl⟩ := h
+    cases v with
+    | arr t xs =>
+      obtain ⟨t', xs', rfl, hne, _, _, _⟩ := conc_arr hv
+      simp only [zipArgs]
+      refine SimG.bind (zipArgs_simE ht) fun cols cols' hc => ?_
+      cases he : enum2 t xs with
+      | true => simp only [if_true]; exact SimG.nondet
+      | false =>
+        obtain ⟨t'', xs'', e, _, hl, _⟩ := conc_arr_pos hv he
+        cases e
+        simp only [enum2_of_ne _ hne, Bool.false_eq_true, if_false]
+        exact SimG.pure (.cons hl hc)
+    | obj kvs => exact SimG.errType
+    | null => exact SimG.errType
+    | bool _ => exact SimG.errType
+    | str _ => exact SimG.errType
+    | num _ => exact SimG.errType
+    | foreign _ => exact SimG.errType
+
+theorem concL_tail {xs xs' : List Val} (h : ConcL xs xs') : ConcL xs.tail xs'.tail := by
+  cases xs with
+  | nil => simp only [ConcL] at h; subst h; exact concL_nil
+  | cons x t =>
+    simp only [ConcL] at h
+    obtain ⟨x', t', _, ht, rfl⟩ := h
+    exact ht
+
+theorem conc_headD {xs xs' : List Val} (h : ConcL xs xs') : Conc (xs.headD .null) (xs'.headD .null) := by
+  cases xs with
+  | nil => simp only [ConcL] at h; subst h; exact conc_null
+  | cons x t =>
+    simp only [ConcL] at h
+    obtain ⟨x', t', hx, _, rfl⟩ := h
+    exact hx
+
+theorem zipRows_conc : ∀ (n : Nat) {cols cols' : List (List Val)}, All₂ ConcL cols cols' →
+    ConcL (zipRows n cols) (zipRows n cols')
+  | 0, _, _, _ => concL_nil
+  | n + 1, cols, cols', h => by
+    simp only [zipRows]
+    refine concL_cons (conc_plainArr (concL_iff.mpr (h.map fun a b hab => conc_headD hab))) ?_
+    exact zipRows_conc n (h.map fun a b hab => concL_tail hab)
+
+theorem zip_count_eq : ∀ {cs cs' : List (List Val)} (m : Nat), All₂ ConcL cs cs' →
+    cs'.foldl (fun m x => min m x.length) m = cs.foldl (fun m x => min m x.length) m
+  | _, _, _, .nil => rfl
+  | _, _, m, .cons (a := a) (b := b) hab t => by
+    simp only [List.foldl_cons, ← concL_length hab]
+    exact zip_count_eq _ t
+
 end Jmes
